@@ -499,12 +499,28 @@ def seam_b_lists(res):
     for ce in (("a",), ("a", "b"), ("a and b",), ("a", "not b")):
         for ue in ((), ("c",), ("c", "a"), ("c or b",)):
             combos.append((ce, ue))
+    # several *different* expressions on one transition, including pairs that differ only in
+    # parenthesisation or in the type of a literal
+    combos += [(("a and (b or c)", "(a and b) or c"), ()),
+               (("a or b and c", "(a or b) and c"), ()),
+               (("not (a and b)", "not a and b"), ("c",)),
+               (("a == 1", "a == '1'"), ()),
+               (("a and b",), ("a and (b)",)),
+               (("a or b",), ("b or a", "a and b"))]
     for provider in ("method", "property", "model-attribute"):
         for (ce, ue) in combos:
             names = ["a", "b", "c"]
             cls, Mod, Lis, reads, holder = build_machine(ce, names, provider, ue)
-            sm = instantiate(cls, Mod, Lis)
-            for combo in itertools.product((True, False, 0, "s", None, [0]), repeat=3):
+            try:
+                sm = instantiate(cls, Mod, Lis)
+            except Exception as e:   # noqa: BLE001
+                res.stats["evaluations"] += 1
+                res.violation({"category": "valid-expression-list-rejected"},
+                              {"lists": [list(ce), list(ue)], "provider": provider},
+                              f"[{provider}] cond={ce} unless={ue}: instantiation raised "
+                              f"{type(e).__name__}: {e}")
+                continue
+            for combo in itertools.product((True, False, 0, "s", None, [0], 1, "1"), repeat=3):
                 pv = dict(zip(names, combo))
                 holder["vals"] = pv
                 del reads[:]
